@@ -170,6 +170,18 @@ func checkArc(c Case) error {
 	} else {
 		w, _ = svgCenter(x1, y1, x2, y2, c.LargeArc, c.Sweep, rx, ry, 2*math.Pi*float64(c.Rot))
 	}
+	// "distinct start/end points": the Renderer knows the start only as the float32 pen, whose
+	// resolution in viewBox units is about eps32*(|x|+|Min|). End points closer than a few such
+	// steps in both directions are not distinct for any implementation working from the pen
+	// (SVG: identical end points omit the arc): no verdict.
+	{
+		resX := (1.0 / (1 << 23)) * (math.Abs(x1) + math.Abs(float64(vb[0])))
+		resY := (1.0 / (1 << 23)) * (math.Abs(y1) + math.Abs(float64(vb[1])))
+		if math.Abs(x2-x1) < 16*resX && math.Abs(y2-y1) < 16*resY {
+			indistinct++
+			return nil
+		}
+	}
 	if len(arc) < 1 || len(arc) > 4 {
 		return harness.Violatef("c06/segment-count", "%v emitted %d segments, expected 1..4 cubics", kind, len(arc))
 	}
@@ -285,7 +297,7 @@ func checkArc(c Case) error {
 	return nil
 }
 
-var illConditionedCount, halfTurnExact, earlierCoincides int64
+var illConditionedCount, halfTurnExact, earlierCoincides, indistinct int64
 var illByFamily = map[string]int64{}
 
 var subArc = harness.Define("arc", "elliptical-arc operations (constructive: centre, radii 0.5-60, rotation, theta1, delta => endpoints and flags; undersized radii with delta=+-pi; exact half turns; nearly closed ellipses (delta within 1e-1..3e-5 of a full turn); zero/negative radii; on a fresh Renderer or on one that just drew the reverse arc in a shifted viewBox, ending on the same pixel; direct random checked against an independent F.6.5) in absolute and relative form under any viewBox->rectangle map: <= 4 cubics, start at pen, end at mapped endpoint, 9 samples per cubic on the ellipse (1e-3), parameter monotone in the sweep direction with the right extent, zero radius => one LineTo to the mapped endpoint; non-trivial = rotated non-circular ellipse under a non-uniform or off-origin map, or scale-up, or zero radius", checkArc)
@@ -510,6 +522,7 @@ func TestArcs(t *testing.T) {
 		subArc.Run(t, c)
 	})
 	subArc.Label("ellipse-clauses-skipped:ill-conditioned-under-float32-pen", illConditionedCount)
+	subArc.Label("no-verdict:end-points-closer-than-16-float32-steps-of-the-pen", indistinct)
 	subArc.Label("earlier-arc-of-the-same-renderer-ended-on-the-bit-identical-pixel", earlierCoincides)
 	subArc.Label("exact-half-turn-checked-against-chord-midpoint-ellipse", halfTurnExact)
 	for f, n := range illByFamily {
